@@ -4,7 +4,6 @@
 # /verif/seeded/<seed-id>/ and runs the property's check on /repo with the change applied.
 set -u
 WT=$1; SID=$2; shift 2; PROPS="$@"
-if [ -n "$(git -C /repo status --short)" ]; then echo "REFUSING: /repo has uncommitted changes (commit contract edits first)"; exit 3; fi
 D=/verif/seeded/$SID; mkdir -p $D
 cd $WT || exit 2
 git diff > $D/patch.diff
@@ -27,25 +26,25 @@ git apply $D/patch.diff
 [ -n "${WX:-}" ] && rm -f $WX
 echo "suite_failures_with_change=$suite demo_fails_with=$demo_with demo_fails_without=$demo_without"
 res=""
-EVBAK=$(mktemp -d /var/tmp/verif-evbak.XXXXXX); cp -a /verif/evidence/. $EVBAK/ 2>/dev/null
-if git -C /repo apply --check $D/patch.diff 2>/dev/null; then
-  git -C /repo apply $D/patch.diff
+# the checks run on a scratch copy of /repo with the change applied (never on /repo itself: other jobs may be reading it)
+SC=$(mktemp -d /var/tmp/verif-seed.XXXXXX)
+rsync -a --exclude .git /repo/ $SC/repo/
+if (cd $SC/repo && patch -p1 -s < $D/patch.diff); then
   for P in $PROPS; do
-    out=$(cd /verif && ./bin/check $P 2>&1); rc=$?
+    out=$(cd /verif && VERIF_REPO=$SC/repo VERIF_OUT=$SC/out ./bin/check $P 2>&1); rc=$?
     echo "--- check $P rc=$rc"; echo "$out" | grep -E '^(VIOLATION|# failed|ENGINE|CONTRACT|check )' | cut -c1-260 | head -12
     res="$res $P:rc=$rc"
   done
-  git -C /repo checkout -- . ; git -C /repo status --short | head -3
 else
   echo "PATCH DOES NOT APPLY to /repo"; res="noapply"
 fi
-rm -rf /verif/evidence; mkdir -p /verif/evidence; cp -a $EVBAK/. /verif/evidence/ 2>/dev/null; rm -rf $EVBAK
+rm -rf $SC
 python3 - "$D" "$SID" "$suite" "$demo_with" "$demo_without" "$res" "$PROPS" <<'PY'
 import json,sys,os
 d,sid,suite,dw,dwo,res,props=sys.argv[1:8]
 meta={"seed_id":sid,"properties":props.split(),"suite_failures_with_change":int(suite),"demo_fails_with_change":int(dw)>0,"demo_fails_without_change":int(dwo)>0,
  "check_results":res.split(),"confirmed":int(suite)==0 and int(dw)>0 and int(dwo)==0,
- "needs":"see SEEDED.md","ran":"selftest/seed_eval.sh: go test (suite, demo with/without change), git apply to /repo, bin/check, git checkout"}
+ "needs":"see SEEDED.md","ran":"selftest/seed_eval.sh: go test (suite, demo with/without change), patch on a scratch copy of /repo, bin/check with VERIF_REPO"}
 if os.path.exists(os.path.join(d,"meta.json")):
     old=json.load(open(os.path.join(d,"meta.json"))); meta["needs"]=old.get("needs",meta["needs"])
 json.dump(meta,open(os.path.join(d,"meta.json"),"w"),indent=1)
